@@ -25,17 +25,6 @@ RULES = [  # (regex, replacements)  applied to code with comments stripped posit
     (r'\btrue\b', ['false']), (r'\bfalse\b', ['true']),
     (r'\.x\b', ['.y']), (r'\.y\b', ['.x']), (r'\bwidth\b', ['height']), (r'\bheight\b', ['width']),
     (r'\?;', [';']), (r'\.rev\(\)', ['']), (r'\.abs\(\)', ['']),
-    # pass-2 rule classes (a replacement may be a function of the match)
-    (r'\b(\w+)\(([^(),;{}]+), ([^(),;{}]+)(?=[,)])', [lambda m: None if m.group(2).strip() == m.group(3).strip() else '%s(%s, %s' % (m.group(1), m.group(3), m.group(2))]),
-    (r'(?<![.])\.\.(?![.=])', ['..=']), (r'\.\.=', ['..']),
-    (r'LineSide::Left\b', ['LineSide::Right']), (r'LineSide::Right\b', ['LineSide::Left']),
-    (r'StrokeOffset::Left\b', ['StrokeOffset::Right']), (r'StrokeOffset::Right\b', ['StrokeOffset::Left']), (r'StrokeOffset::None\b', ['StrokeOffset::Left']),
-    (r'StrokeAlignment::Inside\b', ['StrokeAlignment::Center']), (r'StrokeAlignment::Center\b', ['StrokeAlignment::Outside']), (r'StrokeAlignment::Outside\b', ['StrokeAlignment::Inside']),
-    (r'\+=', ['-=']), (r'(?<![<>=!])-=', ['+=']),
-    (r'\.start\b(?!\()', ['.end']), (r'\.end\b(?!\()', ['.start']),
-    (r'\bfirst\b', ['second']), (r'\bsecond\b', ['first']), (r'\.left\b', ['.right']), (r'\.right\b', ['.left']),
-    (r'\bJoinKind::(\w+)\b', [lambda m: None if m.group(1) == 'Bevel' else 'JoinKind::Bevel']),
-    (r'PointType::Stroke\b', ['PointType::Fill']), (r'PointType::Fill\b', ['PointType::Stroke']),
 ]
 # ---- options (mut1): MUT_SKIP_GENERICS=1 drops `<`/`>` of generic brackets; MUT_EXTRA=1 adds semantic rules for plumbing
 # code; MUT_EXTRA2=1 adds the second-round rule classes; MUT_ONLY=<regex on the mutant id> selects mutants
@@ -119,15 +108,8 @@ def mutants(path):
                     continue   # rustfmt puts spaces around comparisons; `<`/`>` without them are generic brackets
                 for r in reps:
                     if callable(r):
-<<<<<<< HEAD
-                        if re.match(r'\s*(pub(\([^)]*\))?\s+)?(const\s+)?fn\b', line):
-                            continue      # a definition, not a call
-                        r = r(m)
-                        if r is None:
-=======
                         r = r(m)
                         if r == m.group(0):
->>>>>>> wip-mut1
                             continue
                     res.append((a + m.start(), a + m.end(), m.group(0), r))
     res.sort()
@@ -158,13 +140,8 @@ for rel in FILES:
         if idx % STRIDE != OFFSET:
             continue
         line_no = src.count('\n', 0, a) + 1
-<<<<<<< HEAD
-        mid = '%s:%d:%d:%s->%s' % (rel, line_no, a, re.sub(r'\s+', '', old) or '_', re.sub(r'\s+', '', new) or '_')
-        if mid in done:
-=======
         mid = '%s:%d:%d:%s->%s' % (rel, line_no, a, old.strip() or '_', new.strip() or '_')
         if mid in done or (ONLY and not re.search(ONLY, mid)):
->>>>>>> wip-mut1
             continue
         open(path, 'w').write(src[:a] + new + src[b:])
         try:
